@@ -126,7 +126,7 @@ def pool():
 
 # ------------------------------------------------------------------ array generators
 
-def rle_arrays(rng, tier):
+def rle_arrays(rng, tier, nr=None):
     """segment lists aimed at run-length / tagged-length boundaries"""
     P = pool()
     runlens = [1, 2, 3, 239, 240, 241, 242, 2287, 2288, 2289]
@@ -153,7 +153,8 @@ def rle_arrays(rng, tier):
         yield [(n // 2, 7, 0), (n - n // 2, 7, 1)]
     for k in (1, 50, 120, 121):
         yield [(1, 0, 0), (1, 1, 0)] * k                   # alternating
-    nr = 400 if tier == "quick" else 6000
+    if nr is None:
+        nr = 400 if tier == "quick" else 6000
     for _ in range(nr):
         alpha = [rng.choice(P) if rng.random() < 0.7 else rand_u64(rng) for _ in range(rng.randint(1, 4))]
         tr = []
@@ -163,7 +164,7 @@ def rle_arrays(rng, tier):
         yield tr
 
 
-def dict_arrays(rng, tier):
+def dict_arrays(rng, tier, nr=None):
     P = pool()
     dsizes = [1, 2, 3, 255, 256, 257]
     big = [65535, 65536, 65537]
@@ -188,7 +189,8 @@ def dict_arrays(rng, tier):
         # F05: the decoders' limit of 2^20 entries
         yield [(DICT_MAX, 0, 1), (2, 5, 0)]
         yield [(DICT_MAX + 1, 0, 1)]
-    nr = 400 if tier == "quick" else 6000
+    if nr is None:
+        nr = 400 if tier == "quick" else 6000
     for _ in range(nr):
         alpha = [rng.choice(P) if rng.random() < 0.6 else rand_u64(rng) for _ in range(rng.randint(1, 9))]
         tr = []
@@ -234,26 +236,27 @@ def generate_C16(rng, tier):
 
 
 def generate_C13(rng, tier):
-    for tr in rle_arrays(rng, tier):
+    quick = tier == "quick"
+    for tr in rle_arrays(rng, tier, 120 if quick else 3000):
         n = sum(c for (c, _, _) in tr)
-        if n > 5000 and tier == "quick":
-            continue
         if n <= 12:
             caps = list(range(0, n + 1))
         else:
-            cuts = set([0, 1, n - 1, n, n // 2])
+            cuts = set([0, 1, n - 1, n])
             acc = 0
-            for (c, _, _) in tr[:6]:
+            for (c, _, _) in tr[:(2 if quick else 6)]:
                 acc += c
                 cuts.update([acc - 1, acc, acc + 1])
             caps = sorted(x for x in cuts if 0 <= x <= n)
         for cap in caps:
             yield "rle_cap %s 0 %d" % (segs(tr), cap)
             yield "rle_cap %s 1 %d" % (segs(tr), cap)
-    for tr in dict_arrays(rng, tier):
+    for tr in dict_arrays(rng, tier, 120 if quick else 3000):
         n = sum(c for (c, _, _) in tr)
         if n > 5000:
-            caps = [0, n - 1, n]
+            if quick and tr[0][0] != 65536:
+                continue
+            caps = [n - 1, n] if quick else [0, 1, n - 1, n]
         elif n <= 10:
             caps = list(range(0, n + 1))
         else:
